@@ -381,8 +381,132 @@ def check(prop):
     ]
     model_check(rep, prop)
     conformance(rep, prop)
+    if prop == "C04":
+        rep.coverage.update(io_faults(rep, workdir("C04-faults"), random.Random(seed()), tier() == "quick"))
     rep.coverage["exhaustive"] = False
     rep.coverage["rule"] = ("TLC: all reachable states of Sched.tla for the listed constants. Code: every gate-level schedule "
                             "(DFS) of each scenario unless truncated (see truncated_scenarios), judged by the property's "
                             "own statement; distinct traces validated by TLC against Sched.tla")
     rep.finish()
+
+
+# ---------------------------------------------------------------------------------------------
+# C04: real faults (DESIGN 5 C04): each fault kind x position of the faulty file x mode x entry point
+def io_faults(rep, wd, rng, quick):
+    from pp_engine import vh_cases
+    pos = dict(r="root", m="middle", l="leaf", s="unrelated sibling")
+    big = "".join(f"filler line {i} {'z' * 60}\n" for i in range(200))   # > 8 KiB: the BufWriter flushes mid-stream
+
+    def sources(fault_at=None, kind=None, bigout=False):
+        body = dict(r="R-head\nTXTPP#include m.txt\nR-tail\n", m="M-head\nTXTPP#include l.txt\nM-tail\n",
+                    l="L-body\n", s="S-body\n")
+        if bigout:
+            for k in body:
+                body[k] += big
+        if fault_at and kind in DIRECTIVE_FAULTS:
+            body[fault_at] += DIRECTIVE_FAULTS[kind]
+        return [dict(path=f"p/{k}.txt.txtpp", text=v) for k, v in body.items()] + [dict(path="p/sub/.keep", text=""),
+                                                                                    dict(path="p/bin.dat", b64="//4AgQ==")]
+    cases, meta = [], []
+
+    def add(files, steps, kind, at, mode, via, expect, extra=""):
+        cases.append(dict(id=f"f{len(cases)}", files=files, report="changed", steps=steps))
+        meta.append(dict(kind=kind, at=at, mode=mode, via=via, expect=expect, extra=extra))
+
+    def run_step(mode, via, inputs, **kw):
+        if via == "cli":
+            args = {"build": [], "needed": ["-N"], "verify": ["verify"], "clean": ["clean"]}[mode] + ["-q", "-j", "3"] + inputs
+            return dict(run=dict(via="cli", base="p", args=args, **kw))
+        return dict(run=dict(base="p", inputs=inputs, mode=mode, threads=3, jitter=rng.randint(1, 1 << 30), **kw))
+    for at in pos:
+        for via in ("lib", "cli"):
+            for inputs in (["."], ["r.txt", "s.txt"]):
+                # directive-level faults
+                for kind in DIRECTIVE_FAULTS:
+                    for mode in ("build", "needed", "verify"):
+                        steps = []
+                        if mode == "verify":
+                            steps.append(dict(run=dict(base="p", inputs=["."], mode="build", threads=2)))
+                            # the fault is introduced after the build
+                            f = [x for x in sources(at, kind) if x["path"] == f"p/{at}.txt.txtpp"][0]
+                            steps.append(dict(write=f))
+                            add(sources(), steps + [run_step(mode, via, inputs)], kind, at, mode, via, "err")
+                        else:
+                            add(sources(at, kind), [run_step(mode, via, inputs)], kind, at, mode, via, "err")
+                    # clean succeeds even with directive errors
+                    add(sources(at, kind), [run_step("clean", via, inputs)], kind, at, "clean", via, "ok")
+                # output path is a directory
+                for mode in ("build", "needed"):
+                    # (name the sources: an output name that is a directory would be a directory input)
+                    ins = inputs if inputs == ["."] else ["r.txt.txtpp", "s.txt.txtpp"]
+                    add(sources() + [dict(path=f"p/{at}.txt/inside", text="x")], [run_step(mode, via, ins)], "output-is-directory", at, mode, via, "err")
+                # output is a symlink to /dev/full: writes fail with ENOSPC (build streams to the file)
+                for bigout in (False, True):
+                    add(sources(bigout=bigout) + [dict(path=f"p/{at}.txt", symlink="/dev/full")], [run_step("build", via, inputs)],
+                        "output->/dev/full" + ("(>8KiB)" if bigout else ""), at, "build", via, "err")
+                # tampered / missing output in verify
+                for tam in ("flip", "append", "truncate", "delete"):
+                    steps = [dict(run=dict(base="p", inputs=["."], mode="build", threads=2))]
+                    good = dict(r="R-head\nM-head\nL-body\nM-tail\nR-tail\n", m="M-head\nL-body\nM-tail\n", l="L-body\n", s="S-body\n")[at]
+                    if tam == "delete":
+                        steps.append(dict(delete=f"p/{at}.txt"))
+                    else:
+                        bad = dict(flip=good[:-2] + "X\n", append=good + "x", truncate=good[:-1])[tam]
+                        steps.append(dict(write=dict(path=f"p/{at}.txt", text=bad)))
+                    add(sources(), steps + [run_step("verify", via, inputs)], "verify-" + tam, at, "verify", via, "err")
+                # temp target cannot be written
+                for tk in ("temp-is-directory", "temp-dir-missing"):
+                    fs_ = sources()
+                    for x in fs_:
+                        if x["path"] == f"p/{at}.txt.txtpp":
+                            x["text"] += "// TXTPP#temp " + ("sub" if tk == "temp-is-directory" else "nodir/t.tmp") + "\n// body\n"
+                    for mode in ("build", "needed", "verify"):
+                        pre = [dict(run=dict(base="p", inputs=["."], mode="build", threads=2))] if mode == "verify" else []
+                        add(fs_, pre + [run_step(mode, via, inputs)], tk, at, mode, via, "err")
+            # write limit hit after N bytes (RLIMIT_FSIZE, SIGXFSZ ignored): CLI only
+            for mode in ("build", "needed"):
+                for blocks, bigout in ((0, False), (1, True), (8, True), (20, True)):
+                    add(sources(bigout=bigout), [run_step(mode, "cli", ["."], fsize_blocks=blocks)], f"EFBIG after {blocks * 512} bytes", at, mode, "cli", "err")
+    # control: no fault -> success and complete, correct outputs
+    for via in ("lib", "cli"):
+        for mode in ("build", "needed"):
+            for bigout in (False, True):
+                add(sources(bigout=bigout), [run_step(mode, via, ["."])], "none", "-", mode, via, "ok", "big" if bigout else "")
+    res = vh_cases(cases, wd, "c04faults", templates={}, procs=10)
+    kinds = set()
+    for m, r in zip(meta, res):
+        st = r["steps"][-1]
+        kinds.add((m["kind"], m["at"], m["mode"], m["via"]))
+        ctx = f"[fault {m['kind']} at the {pos.get(m['at'], '-')} file, mode {m['mode']}, {m['via']}]"
+        if st["verdict"] in ("panic", "hang"):
+            rep.note(f"(belongs to C18) {st['verdict']} {ctx}")
+            continue
+        if st["verdict"] != m["expect"]:
+            if m["expect"] == "err":
+                rep.violation(f"fault:{m['kind']}:{m['at']}:{m['mode']}:{m['via']}", f"the run reports success although processing a required file fails {ctx}",
+                              dict(meta=m, step={k: v for k, v in st.items() if k != 'tree'}))
+            elif m["mode"] == "clean":
+                rep.note(f"(belongs to C07) clean fails on a directive error {ctx}")
+            else:
+                rep.violation(f"fault:none:{m['mode']}:{m['via']}", f"fault-free project fails: {st.get('detail') or st.get('stderr')} {ctx}", dict(meta=m))
+        elif m["kind"] == "none":
+            tree = st["tree"]
+            suffix = "".join(f"filler line {i} {'z' * 60}\n" for i in range(200)) if m["extra"] == "big" else ""
+            want = dict(l="L-body\n" + suffix, s="S-body\n" + suffix)
+            want["m"] = "M-head\n" + want["l"] + "M-tail\n" + suffix
+            want["r"] = "R-head\n" + want["m"] + "R-tail\n" + suffix
+            for k, v in want.items():
+                if tree.get(f"p/{k}.txt", {}).get("text") != v:
+                    rep.violation(f"fault:none:output:{k}", f"success reported but output {k}.txt is not complete and correct {ctx}", dict(meta=m))
+    return dict(fault_runs=len(cases), fault_classes=len(kinds))
+
+
+DIRECTIVE_FAULTS = {
+    "prefix-less multi-line directive": "TXTPP#run echo x\n",
+    "failing command": "-TXTPP#run exit 3\n",
+    "missing include": "TXTPP#include no-such-file\n",
+    "include of a directory": "TXTPP#include sub\n",
+    "include of a non-UTF-8 file": "TXTPP#include bin.dat\n",
+    "unused tag at end of file": "TXTPP#tag NEVER_USED\n",
+    "temp target ending in .txtpp": "-TXTPP#temp gen.txtpp\n-x\n",
+}
